@@ -591,5 +591,10 @@ def run(repo, check):
     check.run_rule(rule_r4, repo)
     check.run_rule(rule_r5, repo)
     check.run_rule(rule_r6, repo)
+    from sa.rules import c11, c19
+    from sa.rules.common import share
+    share(check, repo, c19.rule_r7, 'C04.R7', 'a length field is overwritten in place without moving anything else (shared with C19.R7)')
+    share(check, repo, c11.rule_r1, 'C04.R8', 'the scanner reports the span the decoder walked, not the declared total, when the data are decoded (shared with C11.R1)',
+          keep=lambda f: ':full:' in f.key and f.key.endswith(':yields'), args=(check.tier,))
     check.assumptions = ['bit positions are modelled exactly (a field of n bits advances the position by n); the bytes themselves are bitstring\'s (C19)',
                          'the synthetic section layouts used for the fold have the same shape as sections 1-4 (24-bit section_length, fixed part, data)']
